@@ -204,7 +204,10 @@ CLAIMS["C06"] = dict(
          "square cost is 0 when the data equal the model values (square_cost_zero_at_truth, any ring). Tied to the code on every run: _setWeight_or_spread and get_state_index "
          "against the Lean driver exactly (accepted and rejected shapes, exception class and site); cost / residual / costIV of the five real loss classes against scipy.stats "
          "log-densities of an independent DOP853 (1e-12) trajectory of the Lean-assembled right-hand side, for 1-3 observed states in any order, every weight / spread shape, "
-         "target_param / target_state subsets in any order.",
+         "target_param / target_state subsets in any order. Histories: the values a loss object holds over any sequence of calls are modelled (Held / step / outputs: unrollState_target, "
+         "unrollState_other, earlier_outputs_unaffected, atStored_reproduces, output_depends_on_held_values_only) and scripts of calls of all eleven entry points on one or two loss objects "
+         "(shared model object, user re-parameterisation, deepcopy, float and integer containers for every argument, t0 != 0) are judged against the same reference for the values held; "
+         "returned arrays are kept and re-compared, the caller's arrays must stay unchanged.",
     note="Trusted: Lean kernel + Mathlib; harness generator and reference (scipy solve_ivp DOP853, scipy.stats); the Lean driver's `assemble` (C01) as the reference right-hand side for random "
          "models, hand-written right-hand sides for the catalogue models (SIR, SEIR, Lotka_Volterra, FitzHugh). Tolerance: 1e-6 x sum|per-entry terms| + effect of a 1e-7 relative "
          "perturbation of the prediction (pygom integrates at 1e-10). Cases whose reference trajectory leaves [0, 100] (population models) are not counted. "
@@ -222,7 +225,9 @@ CLAIMS["C07"] = dict(
          "grad_order_counterexample, grad_obs_order_counterexample, target_state_counterexample (decide); grad_is_chain_rule_partial holds for ascending observed states and parameters. "
          "Tied to the code on every run: _getTargetParamIndex / _getTargetParamSensIndex / _getTargetStateSensIndex / sens_to_grad against the Lean driver exactly on integer arrays; "
          "sensitivity / gradient / sensitivityIV / jac (all five classes, five integrator methods, full_output) against Richardson-extrapolated central differences of the independent reference cost "
-         "and of pygom's own cost.",
+         "and of pygom's own cost. Histories (state machine of C06): sensitivity / gradient / jac / sensitivityIV / jacIV / diff_loss / diff_lossIV after any sequence of calls of the eleven "
+         "entry points (costIV moving a free initial value, a second loss object or the user re-parameterising the shared model, deepcopy), with observations / x0 / grid / weights / spreads in "
+         "float and integer containers, against the reference derivative for the values the object holds at that moment.",
     note="On /repo without proposed_fixes/C07-*.diff this check reports VIOLATION (genuine defects: wrong gradient for observed states not in ascending index order; gradient in sorted instead of supplied "
          "target_param order; sensitivityIV with target_state raises TypeError; a per-observation weight vector with one observed state raises; GammaLoss with one observed state raised until fix 9a6447c) - "
          "see proposed_fixes/C07-*.diff, findings/C07_demo.py, corpus/C07/. Trusted: Lean kernel + Mathlib; harness generator, reference integration, finite differences "
